@@ -25,7 +25,7 @@ def run_checks(props, tier="quick"):
     return out
 
 def main():
-    src = sys.argv[1]
+    src = os.path.abspath(sys.argv[1])
     props_arg = "target"
     only = None
     for i, a in enumerate(sys.argv):
